@@ -12,7 +12,11 @@ from harness.fsrun import walk_fs, walk_spec, diff_walks
 
 NAMES = ["A.TXT", "readme.md", "a long file name.txt", "another long file name.txt", "ÄÖÜ.txt", "SUBDIR",
          "deep directory name", "x.y.z", ".hidden", "UPPER.CAS", "MiXeD.cAsE", "thirteen_char", "exactly26characters_long__",
-         "n" * 60 + ".bin", "ångström.dat"]
+         "n" * 60 + ".bin", "ångström.dat",
+         # long names that fill their last slot exactly (13 / 26 / 39 UTF-16 units: no terminator, no padding) and
+         # end in a unit whose bytes look like padding (U+FFxx: fullwidth forms) or contain 0xFF / 0x00 bytes
+         "abcdefghijkl\uff01", "abcdefghijklmnopqrstuvwxy\uff09", "\uff58" * 13, "budget report 2024 \uff08final\uff09.xlsx\uff01"[:39],
+         "twelve chars\u00ff", "ends with nul-ish \u0100"]
 
 
 def rand_tree(r, depth, bpc, budget):
